@@ -20,7 +20,8 @@ const (
 )
 
 func runC02(x *mc.X) {
-	noCache := mc.Pick(x, "stored.no-cache", []string{"", "no-cache", `no-cache="Set-Cookie, X-Secret"`, `no-cache="set-cookie,X-SECRET"`})
+	noCache := mc.Pick(x, "stored.no-cache", []string{"", "no-cache", `no-cache="Set-Cookie, X-Secret"`, `no-cache="set-cookie,X-SECRET"`,
+		`no-cache, no-cache="X-Secret"`, `no-cache="Set-Cookie", no-cache="X-Secret"`})
 	mustReval := x.Choose("stored.must-revalidate", 2) == 1
 	maxAge := mc.Pick(x, "stored.max-age", []string{"10", "0"})
 	swr := x.Choose("stored.swr", 2) == 1
@@ -130,7 +131,8 @@ func runC02(x *mc.X) {
 	reqNoCache := strings.Contains(reqDir, "no-cache")
 	oic := strings.Contains(reqDir, "only-if-cached")
 	reqMaxAgeExceeded := (strings.Contains(reqDir, "max-age=0") && age > 0) || (strings.Contains(reqDir, "max-age=5") && age > 5)
-	blocker := noCache == "no-cache" || (stale && mustReval) || reqNoCache
+	unqualified := noCache == "no-cache" || strings.HasPrefix(noCache, "no-cache, ") // (also when a qualified form follows it)
+	blocker := unqualified || (stale && mustReval) || reqNoCache
 	needs := blocker || reqMaxAgeExceeded
 	x.State(ccv, validators, fmt.Sprint(stale), reqDir, answerKind, clientCond, obsClass(o2), fmt.Sprint(o2.Tok == o1.Tok))
 	x.Note(fmt.Sprintf("needs=%v/%s", needs, obsClass(o2)))
@@ -190,7 +192,7 @@ func runC02(x *mc.X) {
 	if !needs {
 		return
 	}
-	why := strings.Join(nonEmpty(ifs(noCache == "no-cache", "stored-no-cache"), ifs(stale && mustReval, "stale+must-revalidate"), ifs(reqNoCache, "req-no-cache"), ifs(reqMaxAgeExceeded, "req-max-age-exceeded")), "+")
+	why := strings.Join(nonEmpty(ifs(unqualified, "stored-no-cache"+ifs(noCache != "no-cache", " (repeated)")), ifs(stale && mustReval, "stale+must-revalidate"), ifs(reqNoCache, "req-no-cache"), ifs(reqMaxAgeExceeded, "req-max-age-exceeded")), "+")
 	x.Nontrivial(why + "/" + answerKind + "/" + ifs(oic, "oic"))
 	x.Sample(map[string]any{"stored_cache_control": ccv, "validators": validators, "elapsed_s": elapsed, "request_cache_control": reqDir, "origin_answer": answerKind, "needs_validation_because": why, "observed": o2.String()})
 	ctx := fmt.Sprintf("why=%s swr=%v sie=%v imm=%v oic=%v", why, swr, sie, immutable, oic)
